@@ -70,6 +70,11 @@ func (vc *FnVC) doCall(x ssa.Value, c *ssa.CallCommon) {
 	case c.IsInvoke():
 		recv := vc.val(c.Value)
 		vc.assert("nil-deref", "invoke "+vc.exprText(c.Value)+"."+c.Method.Name(), sNot(sEq(sx("if.tag", recv.S), "0")))
+		if isRegimeIface(c.Value.Type()) {
+			vc.assert("nil-deref", "receiver of "+c.Method.Name(), sNot(sEq(sx("if.ptr", recv.S), "0")))
+		} else {
+			vc.note("receivers of non-Element interface calls are assumed non-nil pointers: " + c.Method.Name())
+		}
 		args = append(args, recv)
 		for _, a := range c.Args {
 			args = append(args, vc.val(a))
@@ -90,6 +95,11 @@ func (vc *FnVC) doCall(x ssa.Value, c *ssa.CallCommon) {
 		}
 		sig = callee.Signature
 		desc = fnKey(callee)
+		if sig.Recv() != nil && len(args) > 0 {
+			if _, isPtr := sig.Recv().Type().Underlying().(*types.Pointer); isPtr && strings.HasPrefix(fnPkgPath(callee), "github.com/DemoHn/Zn") {
+				vc.assert("nil-deref", "receiver of "+callee.Name(), sNot(sEq(args[0].S, "0")))
+			}
+		}
 		con = vc.eng.contractFor(callee)
 		for _, p := range callee.Params {
 			paramNames = append(paramNames, p.Name())
@@ -117,6 +127,9 @@ func (vc *FnVC) doCall(x ssa.Value, c *ssa.CallCommon) {
 		sig = c.Value.Type().Underlying().(*types.Signature)
 		tn := types.TypeString(c.Value.Type(), func(p *types.Package) string { return p.Name() })
 		con = vc.eng.specs.Contracts["functype:"+tn]
+		if con == nil {
+			con = vc.eng.functypeBySig(c.Value.Type())
+		}
 		desc = "func-value " + tn
 		for i := 0; i < sig.Params().Len(); i++ {
 			paramNames = append(paramNames, sig.Params().At(i).Name())
@@ -256,6 +269,7 @@ func (vc *FnVC) applyContract(con *Contract, desc, wit string, callee *ssa.Funct
 	for i, r := range results {
 		env.vars[resNames[i]] = r
 		env.vars[fmt.Sprintf("r%d", i)] = r
+		defer vc.assumeTypeInv(r, false)
 		if len(results) == 1 {
 			env.vars["result"] = r
 		}
@@ -616,7 +630,9 @@ func (vc *FnVC) doAppend(x ssa.Value, c *ssa.CallCommon) {
 	off := sx("sl.off", s.S)
 	base := sx("sl.base", s.S)
 	newLen := vc.define("newlen", SInt, sx("+", ln, k))
-	vc.assert("overflow", "append length", sx("<=", newLen, maxLen))
+	// growing beyond the address space ends in an out-of-memory abort, which is outside every claim
+	vc.assume(sx("<=", newLen, maxLen))
+	vc.note("append never exceeds 2^47 elements (out-of-memory is outside the claim)")
 	inPlace := vc.define("inplace", SBool, sx("<=", newLen, sx("sl.cap", s.S)))
 	oldArr := vc.define("dstold", arrSort, sSelect(oldMem, base))
 	// in-place result array
@@ -778,4 +794,16 @@ func reaches(a, b *ssa.BasicBlock) bool {
 func sortedFrameTargets(ts []frameTarget) []frameTarget {
 	sort.Slice(ts, func(i, j int) bool { return ts[i].key+ts[i].ref < ts[j].key+ts[j].ref })
 	return ts
+}
+
+func fnPkgPath(f *ssa.Function) string {
+	if f.Pkg != nil {
+		return f.Pkg.Pkg.Path()
+	}
+	if f.Signature.Recv() != nil {
+		if n, ok := derefNamed(f.Signature.Recv().Type()); ok && n.Obj().Pkg() != nil {
+			return n.Obj().Pkg().Path()
+		}
+	}
+	return ""
 }
